@@ -113,6 +113,19 @@ def composed_worlds():
         N("multisection", {"type": "leaf", "name": "+", "attribute": "leaves"}),
         N("key", {"name": "k-top", "attribute": "first"})])
     out.append(("main.xml", {"main.xml": main}, {}))
+    # 6 base schemas nested two deep: key type and datatype are named at the bottom only, the names at the top
+    #   are judged under them (two spellings of one word are two keys; 'a' and 'A' are two default keys)
+    root = N("schema", {"keytype": "identifier", "datatype": "zcv.dts.wrap"}, [N("key", {"name": "Root1"})])
+    mid = N("schema", {"extends": "root.xml"}, [
+        N("sectiontype", {"name": "mt1"}, [N("key", {"name": "k1"})]),
+        N("key", {"name": "Mid1"})])
+    main = N("schema", {"extends": "mid.xml"}, [
+        N("key", {"name": "Foo"}),
+        N("key", {"name": "foo"}),
+        N("key", {"name": "+", "attribute": "w"}, [N("default", {"key": "a"}, text="1"),
+                                                    N("default", {"key": "A"}, text="2")]),
+        N("section", {"type": "mt1", "name": "*", "attribute": "one"})])
+    out.append(("main.xml", {"main.xml": main, "mid.xml": mid, "root.xml": root}, {}))
     return out
 
 
@@ -280,8 +293,8 @@ OVERRIDES = {k: "MC" + k for k in ("KeyNorm", "LowerOf", "AttrOf", "IsIdent", "I
 def run(chk):
     quick = chk.tier == "quick"
     items = scenarios(chk.seed, quick)
-    chk.rule = ("every document of the C01 family and of five composed worlds (component imported twice, two base "
-                "schemas, import/@src with prefixes, derived types re-keying '+' defaults incl. from a component, derived types over wildcard-named sections) and "
+    chk.rule = ("every document of the C01 family and of six composed worlds (component imported twice, two base "
+                "schemas, import/@src with prefixes, derived types re-keying '+' defaults incl. from a component, derived types over wildcard-named sections, base schemas nested two deep with the key type named at the bottom) and "
                 "every document obtained by one generic edit at every position (set every attribute to each value of "
                 "its pool incl. sibling names and their case variants / delete it; duplicate, delete, move, retag every "
                 "node; insert an element of every kind under every node; insert character data)"
